@@ -376,7 +376,38 @@ pub(super) fn apply_renaming(
     toplevels: toplevels
       .iter()
       .map(|toplevel| match toplevel {
-        Toplevel::Interface(i) => Toplevel::Interface(i.clone()),
+        Toplevel::Interface(i) => Toplevel::Interface(samlang_ast::source::InterfaceDeclaration {
+          members: InterfaceMembersCommon {
+            loc: i.members.loc,
+            members: i
+              .members
+              .members
+              .iter()
+              .map(|member| ClassMemberDeclaration {
+                parameters: samlang_ast::source::FunctionParameters {
+                  location: member.parameters.location,
+                  start_associated_comments: member.parameters.start_associated_comments,
+                  ending_associated_comments: member.parameters.ending_associated_comments,
+                  parameters: Arc::new(
+                    member
+                      .parameters
+                      .parameters
+                      .iter()
+                      .map(|AnnotatedId { name, type_, annotation }| AnnotatedId {
+                        name: mod_def_id(name, definition_and_uses, new_name),
+                        type_: *type_,
+                        annotation: annotation.clone(),
+                      })
+                      .collect(),
+                  ),
+                },
+                ..member.clone()
+              })
+              .collect(),
+            ending_associated_comments: i.members.ending_associated_comments,
+          },
+          ..i.clone()
+        }),
         Toplevel::Class(c) => Toplevel::Class(ClassDefinition {
           loc: c.loc,
           associated_comments: c.associated_comments,
